@@ -46,6 +46,11 @@ theorem headerOrigin_eq : uriHeaderOrigin = .clone ∧ uripostHeaderOrigin = .cl
 /-- … hence the decoders are the copying system of the reference-level model, for every `headers` option -/
 theorem copies_eq (cfg : Hdrs) : copiesOf uriHeaderOrigin cfg = true ∧ copiesOf uripostHeaderOrigin cfg = true := ⟨rfl, rfl⟩
 
+/-- at the end of a pass the accumulator (the field `Scan` passes to `readLine` / `readBlock`) is given a fresh empty
+map or is emptied in place: either way the header lines of the pass that ended are forgotten
+(`C07_pass_reset_isolates`: with cloned ammo both are right; `C07_pass_reset_needed`: doing nothing is not) -/
+theorem passReset_forgets : uriPassReset.forgets = true ∧ uripostPassReset.forgets = true := ⟨rfl, rfl⟩
+
 /-! ### `util.DecodeHeader`, `uripost.DecodeURI`, `raw.DecodeHeader` -/
 
 /-- `decodeHeader`: `len(h) < 3 || h[0] != '[' || h[len(h)-1] != ']'`, the separator `:` -/
